@@ -505,6 +505,23 @@ func genDecimalForInt(r *gen.RNG) ref.Bits {
 		}
 		return ref.Encode(r.Bool(), c, -j)
 	case 3: // fractions in (-1, 1)
+		if r.Bool() {
+			// values next to a type bound written with a POSITIVE exponent:
+			// floor(bound/10^j) + {-1,0,1} at exponent +j
+			bnd, _ := new(big.Int).SetString(bounds[r.Intn(6)], 10)
+			j := r.Range(1, ref.NumDigits(bnd)-1)
+			c := new(big.Int).Quo(bnd, ref.Pow10(j))
+			c.Add(c, big.NewInt(int64(r.Range(-1, 1))))
+			if c.Sign() > 0 {
+				// a few extra cohort zeros now and then (exponent stays positive or drops to 0)
+				k := r.Intn(3)
+				if k <= j {
+					c.Mul(c, ref.Pow10(k))
+					return ref.Encode(r.Bool(), c, j-k)
+				}
+				return ref.Encode(r.Bool(), c, j)
+			}
+		}
 		c, _ := r.Coef()
 		nd := ref.NumDigits(c)
 		return ref.Encode(r.Bool(), c, -nd-r.Intn(5))
